@@ -7,7 +7,7 @@ from ..ast import bind, show, walk, is_var, structure, C, L
 from ..fingerprint import fingerprint, diff, memo_state, memo_changed
 
 ID = "C18"
-RULE = ("Mode H: 5 base configurators, each built with an explicit id and (one step shallower) without an id (no rule; one defaulted rule; two rules; a top-level boolean item plus a rule; a top-level integer item plus a rule) x ALL sequences of length <=3 "
+RULE = ("Mode H: 7 base configurators, each built with an explicit id and (one step shallower) without an id (no rule; one defaulted rule; two rules; a top-level boolean item plus a rule; a top-level integer item plus a rule; one rule listed twice; one item id with two bounds) x ALL sequences of length <=3 "
         "(quick) / <=4 (thorough) over a menu of 9 rules (plain, defaulted, implication rules, generated and explicit ids, one whose id "
         "collides with an existing rule id, two whose id equals a top-level item - one of them an item with other bounds than (0,1)). Every prefix is a state; transition = add(rule) on the "
         "real object. oracle: after every accepted addition the configurator has the same structural key, default priorities, polyhedron "
@@ -16,7 +16,7 @@ RULE = ("Mode H: 5 base configurators, each built with an explicit id and (one s
         "top-level proposition is refused at whatever position, leaving the configurator unchanged. non-trivial = distinct sequence with at "
         "least one accepted addition")
 ASSUMPTIONS = ["caches are cleared before each comparison (C09 owns cache state)"]
-BOUNDS = {"quick": "5 bases x sequences of length <=3 over 9 rules (<=2 from the id-less base)", "thorough": "5 bases x sequences of length <=4 (<=3 from the id-less base)"}
+BOUNDS = {"quick": "7 bases x sequences of length <=3 over 9 rules (<=2 from the id-less base)", "thorough": "7 bases x sequences of length <=4 (<=3 from the id-less base)"}
 
 
 def bases():
@@ -26,6 +26,9 @@ def bases():
         ("B2:ccXor(a,b,c|b)&c->x", [cfgspace.ccXor("abc", "b", "R1"), C('Imply', "R2", [L("c"), L("x")])]),
         ("B3:item a & AtMost1(a,b)", [L("a"), C('AtMost', "R1", [L("a"), L("b")], 1)]),
         ("B4:integer item n[0,5] & Any(a,b)", [L("n", 0, 5), C('Any', "R1", [L("a"), L("b")])]),
+        # entries that are equal (and hash alike) although they are two entries: one rule listed twice, one id with two bounds
+        ("B5:R1, item c, R1 again", [C('AtMost', "R1", [L("a"), L("b")], 1), L("c"), C('AtMost', "R1", [L("a"), L("b")], 1)]),
+        ("B6:items n[0,5] and n[1,4] & Any(a,b)", [L("n", 0, 5), L("n", 1, 4), C('Any', "R1", [L("a"), L("b")])]),
     ]
 
 
@@ -63,19 +66,38 @@ def run_shard(desc, acc, tier):
 
 
 def observe(cfg):
-    clear_caches()
-    P = cfg.ge_polyhedron
-    poly = (np.asarray(P).tolist(), [(type(v).__name__, repr(v.id), v.bounds.as_tuple()) for v in P.variables],
-            np.asarray(P.default_prio_vector).tolist())
-    dp = sorted((repr(k), v) for k, v in cfg.default_prios.items())
-    sel = None
-    if len(P.A.variables) <= 16:
+    """Everything a user can see of a configurator. A query that raises is observed as its exception type (a configurator holding one
+    rule twice, or one id with two bounds, may refuse some queries - then the extended and the directly built one must refuse alike)."""
+    out = {"id": cfg.id, "generated_id": cfg.generated_id, "class": type(cfg).__name__}
+
+    def q(name, fn):
+        clear_caches()
+        try:
+            out[name] = fn()
+        except Exception as e:
+            out[name] = "RAISES " + type(e).__name__
+
+    def poly():
+        P = cfg.ge_polyhedron
+        return (np.asarray(P).tolist(), [(type(v).__name__, repr(v.id), v.bounds.as_tuple()) for v in P.variables], np.asarray(P.default_prio_vector).tolist())
+
+    def sel():
+        P = cfg.ge_polyhedron
+        if len(P.A.variables) > 16:
+            return None
         prios = cfgspace.prio_dicts()[::4]
-        sel = [sorted((repr(k), int(v)) for k, v in s[0].items()) for s in cfg.select(*[dict(p) for p in prios], solver=cfgspace.Capture("exact"))]
-    leafs = [repr(v) for v in cfg.leafs()]
+        return [sorted((repr(k), int(v)) for k, v in s_[0].items()) for s_ in cfg.select(*[dict(p) for p in prios], solver=cfgspace.Capture("exact"))]
+    q("structure", lambda: structure(cfg))
+    q("children", lambda: [repr(p.id) for p in cfg.propositions])
+    q("value", lambda: (int(cfg.sign), int(cfg.value)))
+    q("poly", poly)
+    q("default_prios", lambda: sorted((repr(k), v) for k, v in cfg.default_prios.items()))
+    q("select", sel)
+    q("leafs", lambda: [repr(v) for v in cfg.leafs()])
+    q("errors", lambda: [str(e) for e in cfg.errors()])
+    q("json", lambda: repr(cfg.to_json()))
     clear_caches()
-    return {"structure": structure(cfg), "poly": poly, "default_prios": dp, "select": sel, "leafs": leafs, "id": cfg.id, "generated_id": cfg.generated_id,
-            "class": type(cfg).__name__, "errors": [str(e) for e in cfg.errors()]}
+    return out
 
 
 def check_seq(bi, seq, acc, cid="cfg"):
